@@ -223,6 +223,16 @@ func init() {
 					cs = append(cs, c)
 				}
 			}
+			// small-alphabet streams a little longer than the 64 KiB window, one byte per source read
+			for i := 0; i < tierN(tier, 120, 1500); i++ {
+				alpha := 2 + r.Intn(7)
+				d := make([]byte, 65536+100+r.Intn(700))
+				for q := range d {
+					d[q] = byte('a' + r.Intn(alpha))
+				}
+				s := stdDeflate(d, r.Pick([]int{1, 6, 9, -1}))
+				cs = append(cs, Case{Prop: "C04", Kind: "valid", Stream: s, Note: fmt.Sprintf("stdlib:alpha%d", alpha), Chunks: []int{1}, Reads: readPattern(r), Ctor: r.Pick2("new", "reset"), BufSize: r.Pick([]int{0, 0, 64, 4096})})
+			}
 			return cs
 		},
 		Check: checkC04})
